@@ -1,6 +1,8 @@
 import OV.Model.C13Roundtrip
 import OV.Lemmas.C13
 set_option linter.unusedSimpArgs false
+set_option linter.unnecessarySimpa false
+set_option linter.unusedVariables false
 /-! Lemmas for the straight-line round trip: renaming invariance of `evalGraph`. -/
 namespace OV.C13
 
@@ -165,52 +167,57 @@ theorem evalGraph_ren (S : Sem V) (f : String → String) (g : Graph)
               (fun x hx => ⟨mem_names_of_output (g := Graph.mk gin gout ginits gsp gnodes) hx, hout x hx⟩)
 
 
-/-! ## reading back the exported program -/
 
 
+
+
+
+
+
+/-! ## the fragment, as propositions -/
 
 theorem cleanup_fix_string (s : String) (hid : isPyIdentL s.toList = true) (hk : s.toList ∉ kwlistL) :
     cleanup s = s := by
   unfold cleanup
   rw [cleanupL_fix _ hid hk, String.ofList_toList]
 
-theorem toList_ne_nil {s : String} (h : s ≠ "") : s.toList ≠ [] := by
-  intro h'
-  apply h
-  apply String.toList_inj.mp
-  rw [h']; rfl
+theorem aliasOk_spec {opsets : List (String × Nat)} (h : aliasOk opsets = true) :
+    ∃ v, opsets.lookup "" = some v ∧ (opsets.map importOf).lookup (opsetName "" v) = some "" := by
+  unfold aliasOk at h
+  cases hl : opsets.lookup "" with
+  | none => rw [hl] at h; cases h
+  | some v => rw [hl] at h; exact ⟨v, rfl, by simpa using h⟩
 
-theorem cleanup_ne_None (v : String) (hv : v ≠ "") : cleanup v ≠ "None" := by
-  intro h
-  have := (cleanupL_ident v.toList (toList_ne_nil hv)).2
-  apply this
-  have h2 : cleanupL v.toList = "None".toList := by
-    have := congrArg String.toList h
-    simpa [cleanup, String.toList_ofList] using this
-  rw [h2]; decide
-
-theorem cleanup_ne_empty (v : String) (hv : v ≠ "") : cleanup v ≠ "" := by
-  intro h
-  have h1 := (cleanupL_ident v.toList (toList_ne_nil hv)).1
-  have h2 : cleanupL v.toList = [] := by
-    have := congrArg String.toList h
-    simpa [cleanup, String.toList_ofList] using this
-  rw [h2] at h1
-  simp [isPyIdentL] at h1
-
-theorem unPy_pyName (v : String) : unPy (pyName v) = renName cleanup v := by
-  unfold unPy pyName renName
-  by_cases hv : v = ""
-  · simp [hv]
-  · simp only [hv, if_false, cleanup_ne_None v hv]
-
-theorem pyName_of_ne {v : String} (hv : v ≠ "") : pyName v = cleanup v := by
-  unfold pyName; simp only [hv, if_false]
-
-theorem map_pyName_of_ne : ∀ (l : List String), (∀ x ∈ l, x ≠ "") → l.map pyName = l.map cleanup
+theorem translateAttrs_printable : ∀ (attrs : List (String × Attr)),
+    attrs.all (fun ka => attrPrintable ka.2) = true → translateAttrs attrs = .ok (attrs.map attrTok)
   | [], _ => rfl
-  | x :: xs, h => by
-    simp only [List.map_cons, pyName_of_ne (h x (by simp)), map_pyName_of_ne xs (fun y hy => h y (by simp [hy]))]
+  | (k, a) :: rest, h => by
+    simp only [List.all_cons, Bool.and_eq_true] at h
+    have ih := translateAttrs_printable rest h.2
+    have h1 := h.1
+    cases a with
+    | plain => simp only [translateAttrs, ih, Except.map, List.map_cons, attrTok]
+    | tensor _ _ _ _ => simp only [translateAttrs, ih, Except.map, List.map_cons, attrTok]
+    | ref _ => simp [attrPrintable] at h1
+    | graph _ => simp [attrPrintable] at h1
+    | unsupported => simp [attrPrintable] at h1
+
+theorem no_graph_of_printable : ∀ (attrs : List (String × Attr)),
+    attrs.all (fun ka => attrPrintable ka.2) = true → attrs.any (·.2.isGraph) = false
+  | [], _ => rfl
+  | (k, a) :: rest, h => by
+    simp only [List.all_cons, Bool.and_eq_true] at h
+    have ih := no_graph_of_printable rest h.2
+    have h1 := h.1
+    cases a with
+    | plain => rw [List.any_cons, ih]; rfl
+    | tensor _ _ _ _ => rw [List.any_cons, ih]; rfl
+    | ref _ => simp [attrPrintable] at h1
+    | graph _ => simp [attrPrintable] at h1
+    | unsupported => simp [attrPrintable] at h1
+
+
+
 
 
 
@@ -225,43 +232,400 @@ structure StraightNode (o : Opts) (opsets : List (String × Nat)) (n : Node) : P
   opId : isPyIdentL n.op.toList = true
   opKw : n.op.toList ∉ kwlistL
   ident : ¬ (n.op = "Identity" ∧ n.ins.length = 1 ∧ n.outs.length = 1 ∧
-              pyName (n.outs.getD 0 "") = pyName (n.ins.getD 0 ""))
-  sugar : ∀ sym, (if o.useOps then opsTable.lookup n.op else none) = some sym → sugarSymmetric n sym = true
+              (n.outs.getD 0 "" = n.ins.getD 0 "" ∨ n.ins.getD 0 "" = ""))
+  sugar : ∀ sym, sugarOf o n = some sym → sugarSymmetric n sym = true
 
 theorem straightNode_spec (o : Opts) (opsets : List (String × Nat)) (n : Node)
     (h : straightNode o opsets n = true) : StraightNode o opsets n := by
   unfold straightNode at h
   simp only [Bool.and_eq_true, bne_iff_ne, ne_eq, beq_iff_eq, Bool.not_eq_true', List.all_eq_true,
-    Bool.not_eq_eq_eq_not, Bool.not_true] at h
+    Bool.not_eq_eq_eq_not, Bool.not_true, Bool.or_eq_true] at h
   obtain ⟨⟨⟨⟨⟨⟨⟨⟨⟨⟨h1, h2⟩, h3⟩, h4⟩, h5⟩, h6⟩, h7⟩, h8⟩, h9⟩, h10⟩, h11⟩ := h
   refine ⟨h1, h2, h3, h4, h5, ?_, h7, h8, ?_, ?_, ?_⟩
   · simpa [List.all_eq_true] using h6
   · simpa using h9
   · intro hc
     obtain ⟨a, b, c, d⟩ := hc
-    simp only [a, b, c, true_and, decide_true, Bool.true_and] at h10
-    have hb : 0 < n.ins.length := by omega
-    have hc' : 0 < n.outs.length := by omega
-    simp only [List.getD_eq_getElem?_getD, List.getElem?_eq_getElem hb, List.getElem?_eq_getElem hc', Option.getD_some] at h10 d
-    simp [d] at h10
+    simp only [a, b, c, true_and, decide_true, Bool.true_and, Bool.and_eq_false_iff, Bool.or_eq_false_iff,
+      beq_eq_false_iff_ne, ne_eq, beq_self_eq_true, Bool.true_eq_false, false_or] at h10
+    rcases d with d | d
+    · exact h10.1 d
+    · exact h10.2 d
   · intro sym hs
     rw [hs] at h11
     exact h11
 
-theorem aliasOk_spec {opsets : List (String × Nat)} (h : aliasOk opsets = true) :
-    ∃ v, opsets.lookup "" = some v ∧ (opsets.map importOf).lookup (opsetName "" v) = some "" := by
-  unfold aliasOk at h
-  cases hl : opsets.lookup "" with
-  | none => rw [hl] at h; cases h
-  | some v => rw [hl] at h; exact ⟨v, rfl, by simpa using h⟩
 
-/-- **Reading back one printed statement gives the renamed node.** -/
-theorem stmtToNode_straight (o : Opts) (opsets : List (String × Nat)) (n : Node)
-    (hn : StraightNode o opsets n) (ha : aliasOk opsets = true) :
-    stmtToNode (opsets.map importOf) (straightStmt o opsets n) = renNode cleanup n := by
+
+/-! ## names printed through the table -/
+
+theorem map_pyT_stable {u T : List (String × String)} (h : Ext u T) :
+    ∀ (l : List String), (∀ x ∈ l, Present u x) → l.map (pyT T) = l.map (pyT u)
+  | [], _ => rfl
+  | x :: xs, hp => by
+    simp only [List.map_cons, pyT_stable h (hp x (by simp)), map_pyT_stable h xs (fun y hy => hp y (by simp [hy]))]
+
+/-- no printed name starts with `-` -/
+def NoDash (u : List (String × String)) : Prop := ∀ p ∈ u, p.2.toList.head? ≠ some '-'
+
+theorem idStart_ne_dash {c : Char} (h : idStart c = true) : c ≠ '-' := by
+  intro hc; subst hc; revert h; decide
+
+theorem uniqCand_nodash (n : String) (hn : n ≠ "") (j : Nat) :
+    (uniqCand (cleanup n) j).toList.head? ≠ some '-' := by
+  have hid := (cleanupL_ident n.toList (toList_ne_nil' hn)).1
+  have hcl : (cleanup n).toList = cleanupL n.toList := by simp [cleanup, String.toList_ofList]
+  cases hc : cleanupL n.toList with
+  | nil => rw [hc] at hid; simp [isPyIdentL] at hid
+  | cons c cs =>
+    rw [hc] at hid
+    simp only [isPyIdentL, Bool.and_eq_true] at hid
+    have hne := idStart_ne_dash hid.1
+    unfold uniqCand
+    by_cases hj : j = 0
+    · simp only [hj, if_true, hcl, hc, List.head?_cons, ne_eq, Option.some.injEq]; exact hne
+    · simp only [hj, if_false, String.toList_append, hcl, hc, List.cons_append, List.head?_cons, ne_eq,
+        Option.some.injEq]; exact hne
+
+theorem noDash_uniqStep {u : List (String × String)} (h : NoDash u) (n : String) (hn : n ≠ "") :
+    NoDash (uniqStep u n).2 := by
+  unfold uniqStep
+  cases hl : u.lookup n with
+  | some r => exact h
+  | none =>
+    simp only
+    obtain ⟨j, hj⟩ := findFree_is_cand (cleanup n) (u.map (·.2)) (u.length + 1) 0
+    intro p hp
+    rcases List.mem_append.mp hp with hp | hp
+    · exact h p hp
+    · simp only [List.mem_singleton] at hp
+      subst hp; simp only; rw [hj]; exact uniqCand_nodash n hn j
+
+theorem noDash_uniqReq {u : List (String × String)} (h : NoDash u) (v : String) : NoDash (uniqReq u v) := by
+  unfold uniqReq
+  by_cases hv : v = ""
+  · simp only [hv, if_true]; exact h
+  · simp only [hv, if_false]; exact noDash_uniqStep h v hv
+
+theorem noDash_uniqRun : ∀ (vs : List String) {u : List (String × String)}, NoDash u → NoDash (uniqRun u vs)
+  | [], _, h => h
+  | v :: vs, _, h => noDash_uniqRun vs (noDash_uniqReq h v)
+
+theorem pyT_nodash {T : List (String × String)} (h : NoDash T) (v : String) :
+    (pyT T v).toList.head? ≠ some '-' := by
+  unfold pyT
+  by_cases hv : v = ""
+  · simp only [hv, if_true]; decide
+  · simp only [hv, if_false]
+    cases hl : T.lookup v with
+    | none => simp
+    | some r => simp only [Option.getD_some]; exact h _ (lookup_some_mem T v r hl)
+
+theorem powParen_names {T : List (String × String)} (h : NoDash T) (op a : String) (rest : List String) :
+    powParen op (pyT T a :: rest) = pyT T a :: rest := by
+  unfold powParen
+  have : ((pyT T a).toList.head? == some '-') = false := by simpa using pyT_nodash h a
+  simp [this]
+
+/-- the state the lemmas below are about: only the unique-name mapper acts, and its table is well formed -/
+structure Tame (st : St) : Prop where
+  plain : Plain st
+  inv : TblInv st.uniq
+  nodash : NoDash st.uniq
+
+theorem tame_run {st : St} (h : Tame st) (vs : List String) : Tame { st with uniq := uniqRun st.uniq vs } :=
+  ⟨plain_uniq h.plain _, tblInv_uniqRun vs h.inv, noDash_uniqRun vs h.nodash⟩
+
+
+
+theorem getD_map_pyT (T : List (String × String)) (l : List String) (h : l.length = 1) :
+    (l.map (pyT T)).getD 0 "" = pyT T (l.getD 0 "") := by
+  match l, h with
+  | [a], _ => rfl
+
+theorem translatePlain_tbl (o : Opts) (hr : o.rename = false) (opsets : List (String × Nat)) (n : Node)
+    (hn : StraightNode o opsets n) (indent : Nat) (st : St) (ht : Tame st) :
+    translatePlain o opsets n indent st =
+      .ok ([renderStmt indent (straightStmtF (pyT (uniqRun st.uniq (reqOfNode o n))) o opsets n)],
+           { st with uniq := uniqRun st.uniq (reqOfNode o n) }) := by
+  have hq := ht.plain
+  unfold translatePlain straightStmtF reqOfNode
+  simp only [no_graph_of_printable n.attrs hn.attrs, Bool.false_eq_true, if_false]
+  have hso : (if o.useOps then opsTable.lookup n.op else none) = sugarOf o n := rfl
+  rw [hso]
+  cases hs : sugarOf o n with
+  | some sym =>
+    have hsym := hn.sugar sym hs
+    unfold sugarSymmetric at hsym
+    simp only [Bool.and_eq_true, beq_iff_eq, List.isEmpty_iff] at hsym
+    obtain ⟨⟨⟨_, h2⟩, _⟩, _⟩ := hsym
+    simp only [translateVar_uniq o hr st hq, translateVarRefs_uniq o hr _ _ (plain_uniq hq _), renderStmt, uniqRun]
+    match hi : n.ins, h2 with
+    | [a, b], _ =>
+      have hstab := pyT_stable (uniqRun_ext [a, b] (uniqReq st.uniq (n.outs.getD 0 "")))
+        (present_uniqReq st.uniq (n.outs.getD 0 ""))
+      have hnd : NoDash (uniqRun (uniqReq st.uniq (n.outs.getD 0 "")) [a, b]) :=
+        noDash_uniqRun [a, b] (noDash_uniqReq ht.nodash _)
+      simp only [List.map_cons, List.map_nil, List.getD_cons_zero, List.getD_cons_succ, hstab,
+        powParen_names hnd]
+  | none =>
+    simp only [hn.dom]
+    obtain ⟨v, hv⟩ := Option.isSome_iff_exists.mp hn.ops
+    have hq1 : Plain { st with uniq := uniqRun st.uniq n.outs } := plain_uniq hq _
+    simp only [hv, Option.getD_some, translateAttrs_printable n.attrs hn.attrs,
+      outNames_uniq o hr n.outs 0 st hq hn.outs, translateVarRefs_uniq o hr n.ins _ hq1, renderStmt,
+      ← uniqRun_append]
+    -- the outputs were printed with the table after the outputs; restate them with the table after the node
+    have houts : n.outs.map (pyT (uniqRun st.uniq n.outs)) = n.outs.map (pyT (uniqRun st.uniq (n.outs ++ n.ins))) := by
+      rw [uniqRun_append]
+      exact (map_pyT_stable (uniqRun_ext n.ins _) n.outs (fun x hx => present_uniqRun n.outs _ x hx)).symm
+    rw [houts]
+    have hid : (n.op == "Identity" && n.ins.length == 1 && n.outs.length == 1 &&
+        (n.outs.map (pyT (uniqRun st.uniq (n.outs ++ n.ins)))).getD 0 "" ==
+          (n.ins.map (pyT (uniqRun st.uniq (n.outs ++ n.ins)))).getD 0 "") = false := by
+      by_cases hc : n.op = "Identity" ∧ n.ins.length = 1 ∧ n.outs.length = 1
+      · obtain ⟨a, b, c⟩ := hc
+        have hT : TblInv (uniqRun st.uniq (n.outs ++ n.ins)) := tblInv_uniqRun _ ht.inv
+        have hne : n.outs.getD 0 "" ≠ n.ins.getD 0 "" := fun e => hn.ident ⟨a, b, c, Or.inl e⟩
+        have hin : n.ins.getD 0 "" ≠ "" := fun e => hn.ident ⟨a, b, c, Or.inr e⟩
+        have hmo : n.outs.getD 0 "" ∈ n.outs := by
+          match ho : n.outs, c with
+          | [x], _ => simp
+        have hmi : n.ins.getD 0 "" ∈ n.ins := by
+          match hi : n.ins, b with
+          | [x], _ => simp
+        have hout : n.outs.getD 0 "" ≠ "" := hn.outs _ hmo
+        have hpo : Present (uniqRun st.uniq (n.outs ++ n.ins)) (n.outs.getD 0 "") :=
+          present_uniqRun _ _ _ (List.mem_append_left _ hmo)
+        have hpi : Present (uniqRun st.uniq (n.outs ++ n.ins)) (n.ins.getD 0 "") :=
+          present_uniqRun _ _ _ (List.mem_append_right _ hmi)
+        have hneq : pyT (uniqRun st.uniq (n.outs ++ n.ins)) (n.outs.getD 0 "") ≠
+            pyT (uniqRun st.uniq (n.outs ++ n.ins)) (n.ins.getD 0 "") :=
+          fun e => hne (pyT_inj hT hout hin hpo hpi e)
+        simp only [a, b, c, beq_self_eq_true, Bool.true_and, getD_map_pyT _ _ b, getD_map_pyT _ _ c]
+        simpa using hneq
+      · have : (n.op == "Identity" && n.ins.length == 1 && n.outs.length == 1) = false := by
+          simp only [Bool.and_eq_false_iff, beq_eq_false_iff_ne, ne_eq]
+          by_cases a : n.op = "Identity"
+          · by_cases b : n.ins.length = 1
+            · right; intro c; exact hc ⟨a, b, c⟩
+            · left; right; exact b
+          · left; left; exact a
+        simp only [this, Bool.false_and]
+    simp only [hid, Bool.false_eq_true, if_false]
+
+
+
+theorem translateNode_tbl (o : Opts) (hr : o.rename = false) (hi : o.inlineConst = false)
+    (opsets : List (String × Nat)) (d indent : Nat) (n : Node) (hn : StraightNode o opsets n)
+    (st : St) (ht : Tame st) :
+    translateNode o opsets (d + 1) indent n st =
+      .ok ([renderStmt indent (straightStmtF (pyT (uniqRun st.uniq (reqOfNode o n))) o opsets n)],
+           { st with uniq := uniqRun st.uniq (reqOfNode o n) }) := by
+  have e2 : (n.op == "If") = false := by simpa using hn.notIf
+  have e3 : (n.op == "Loop") = false := by simpa using hn.notLoop
+  have e4 : (n.op == "Scan") = false := by simpa using hn.notScan
+  simp only [translateNode, hi, Bool.false_and, Bool.false_eq_true, if_false, e2, e3, e4]
+  exact translatePlain_tbl o hr opsets n hn indent st ht
+
+theorem getD_mem_or (l : List String) (i : Nat) : l.getD i "" ∈ l ∨ l.getD i "" = "" := by
+  rw [List.getD_eq_getElem?_getD]
+  cases h : l[i]? with
+  | none => right; rfl
+  | some x => left; simp only [Option.getD_some]; exact List.mem_of_getElem? h
+
+/-- the printed statement only depends on the names of the node (and on `""`) -/
+theorem straightStmtF_congr (f g : String → String) (o : Opts) (opsets : List (String × Nat)) (n : Node)
+    (h : ∀ x, x ∈ n.outs ++ n.ins ∨ x = "" → f x = g x) :
+    straightStmtF f o opsets n = straightStmtF g o opsets n := by
+  unfold straightStmtF
+  have hget : ∀ (l : List String) (i : Nat), (∀ x ∈ l, x ∈ n.outs ++ n.ins) → f (l.getD i "") = g (l.getD i "") := by
+    intro l i hl
+    rcases getD_mem_or l i with hm | hm
+    · exact h _ (Or.inl (hl _ hm))
+    · exact h _ (Or.inr hm)
+  have houts : n.outs.map f = n.outs.map g :=
+    List.map_congr_left (fun x hx => h x (Or.inl (List.mem_append_left _ hx)))
+  have hins : n.ins.map f = n.ins.map g :=
+    List.map_congr_left (fun x hx => h x (Or.inl (List.mem_append_right _ hx)))
+  cases sugarOf o n with
+  | some sym =>
+    simp only [hget n.outs 0 (fun x hx => List.mem_append_left _ hx),
+      hget n.ins 0 (fun x hx => List.mem_append_right _ hx), hget n.ins 1 (fun x hx => List.mem_append_right _ hx)]
+  | none => simp only [houts, hins]
+
+/-- every name of a node is requested by its translation (operator sugar: under the symmetry condition) -/
+theorem names_in_req (o : Opts) (opsets : List (String × Nat)) (n : Node) (hn : StraightNode o opsets n) :
+    ∀ x ∈ n.outs ++ n.ins, x ∈ reqOfNode o n := by
+  intro x hx
+  unfold reqOfNode
+  cases hs : sugarOf o n with
+  | none => exact hx
+  | some sym =>
+    have hsym := hn.sugar sym hs
+    unfold sugarSymmetric at hsym
+    simp only [Bool.and_eq_true, beq_iff_eq, List.isEmpty_iff] at hsym
+    obtain ⟨⟨⟨_, _⟩, h3⟩, _⟩ := hsym
+    match ho : n.outs, h3 with
+    | [c], _ =>
+      rw [ho] at hx
+      simpa using hx
+
+theorem stmt_stable (o : Opts) (opsets : List (String × Nat)) (n : Node) (hn : StraightNode o opsets n)
+    {u T : List (String × String)} (h : Ext (uniqRun u (reqOfNode o n)) T) :
+    straightStmtF (pyT (uniqRun u (reqOfNode o n))) o opsets n = straightStmtF (pyT T) o opsets n := by
+  apply straightStmtF_congr
+  intro x hx
+  rcases hx with hx | hx
+  · exact (pyT_stable h (present_uniqRun _ _ _ (names_in_req o opsets n hn x hx))).symm
+  · subst hx; rfl
+
+theorem nodesLoop_tbl (o : Opts) (hr : o.rename = false) (hi : o.inlineConst = false)
+    (opsets : List (String × Nat)) (d indent : Nat) :
+    ∀ (ns : List Node) (st : St), Tame st → (∀ n ∈ ns, StraightNode o opsets n) →
+      nodesLoop (translateNode o opsets (d + 1) indent) ns st =
+        .ok (ns.map (fun n => renderStmt indent
+              (straightStmtF (pyT (uniqRun st.uniq (ns.flatMap (reqOfNode o)))) o opsets n)),
+             { st with uniq := uniqRun st.uniq (ns.flatMap (reqOfNode o)) })
+  | [], st, _, _ => rfl
+  | n :: ns, st, ht, h => by
+    have hn := h n (by simp)
+    have ht1 := tame_run ht (reqOfNode o n)
+    have ih := nodesLoop_tbl o hr hi opsets d indent ns _ ht1 (fun m hm => h m (by simp [hm]))
+    simp only [nodesLoop, translateNode_tbl o hr hi opsets d indent n hn st ht, ih, List.flatMap_cons,
+      uniqRun_append, List.map_cons, List.singleton_append]
+    rw [stmt_stable o opsets n hn (uniqRun_ext (ns.flatMap (reqOfNode o)) _)]
+
+
+
+theorem straightModel_nodes {o : Opts} {m : ModelP} (h : straightModel o m = true) :
+    ∀ n ∈ m.graph.nodes, StraightNode o m.opsets n := by
+  unfold straightModel at h
+  simp only [Bool.and_eq_true, List.all_eq_true] at h
+  intro n hn
+  exact straightNode_spec o m.opsets n (h.1.1.2 n hn)
+
+theorem finalTable_eq (o : Opts) (m : ModelP) :
+    finalTable o m =
+      uniqRun (uniqRun (uniqRun [] (m.graph.nodes.flatMap (reqOfNode o))) m.graph.inputs) m.graph.outputs := by
+  unfold finalTable reqOrder
+  rw [uniqRun_append, uniqRun_append]
+
+theorem tame_start : Tame ({ remaps := [[]] } : St) :=
+  ⟨⟨rfl, fun v => by simp [lookupRemap, List.lookup], rfl⟩, tblInv_nil,
+   fun p h => absurd h (List.not_mem_nil)⟩
+
+theorem graphProg_tbl (o : Opts) (m : ModelP) (h : straightModel o m = true) (d indent : Nat) :
+    ∃ st', graphProg o (d + 1) m m.funName indent {} =
+      .ok (["deco " ++ defaultOpsetArg o m.opsets,
+            "sig " ++ m.funName ++ "(" ++ comma (m.graph.inputs.map (pyT (finalTable o m))) ++ "|)"]
+            ++ m.graph.nodes.map (fun n => renderStmt indent (straightStmtF (pyT (finalTable o m)) o m.opsets n))
+            ++ [line indent ("return " ++ comma (m.graph.outputs.map (pyT (finalTable o m))))], st')
+      ∧ st'.skipped = [] := by
+  have hnodes := straightModel_nodes h
+  unfold straightModel at h
+  simp only [Bool.and_eq_true, List.all_eq_true, bne_iff_ne, ne_eq, Bool.not_eq_true', List.isEmpty_iff,
+    beq_iff_eq] at h
+  obtain ⟨⟨⟨⟨⟨⟨⟨⟨⟨⟨hr, hi⟩, hinits⟩, hsp⟩, _⟩, _⟩, _⟩, _⟩, _⟩, _⟩, _⟩ := h
+  have ht0 := tame_start
+  have ht1 := tame_run ht0 (m.graph.nodes.flatMap (reqOfNode o))
+  have ht2 := tame_run ht1 m.graph.inputs
+  refine ⟨({ remaps := [], uniq := finalTable o m } : St), ?_, rfl⟩
+  · unfold graphProg graphBody
+    simp only [hinits, initsLoop, hsp, Nat.lt_irrefl, gt_iff_lt, if_false, List.nil_append,
+      nodesLoop_tbl o hr hi m.opsets d indent m.graph.nodes _ ht0 hnodes,
+      translateVars_uniq o hr m.graph.inputs _ ht1.plain, translateVars_uniq o hr m.graph.outputs _ ht2.plain,
+      finalTable_eq]
+    -- restate the body (table after the body) and the signature (table after the signature) with the final table
+    have hbody : ∀ n ∈ m.graph.nodes,
+        renderStmt indent (straightStmtF (pyT (uniqRun [] (m.graph.nodes.flatMap (reqOfNode o)))) o m.opsets n) =
+        renderStmt indent (straightStmtF (pyT (uniqRun (uniqRun (uniqRun [] (m.graph.nodes.flatMap (reqOfNode o)))
+          m.graph.inputs) m.graph.outputs)) o m.opsets n) := by
+      intro n hn
+      congr 1
+      apply straightStmtF_congr
+      intro x hx
+      rcases hx with hx | hx
+      · have hp : Present (uniqRun [] (m.graph.nodes.flatMap (reqOfNode o))) x :=
+          present_uniqRun _ _ _ (List.mem_flatMap.mpr ⟨n, hn, names_in_req o m.opsets n (hnodes n hn) x hx⟩)
+        exact (pyT_stable ((uniqRun_ext m.graph.inputs _).trans (uniqRun_ext m.graph.outputs _)) hp).symm
+      · subst hx; rfl
+    have hsig : m.graph.inputs.map (pyT (uniqRun (uniqRun [] (m.graph.nodes.flatMap (reqOfNode o))) m.graph.inputs)) =
+        m.graph.inputs.map (pyT (uniqRun (uniqRun (uniqRun [] (m.graph.nodes.flatMap (reqOfNode o)))
+          m.graph.inputs) m.graph.outputs)) :=
+      (map_pyT_stable (uniqRun_ext m.graph.outputs _) m.graph.inputs
+        (fun x hx => present_uniqRun m.graph.inputs _ x hx)).symm
+    rw [List.map_congr_left hbody, hsig]
+    rfl
+
+
+
+/-- **The string-level model of the exporter prints exactly `exportStraight` on the fragment** (every option
+    tuple of the fragment, every nesting fuel ≥ 1). -/
+theorem exportModel_straight (o : Opts) (m : ModelP) (h : straightModel o m = true) (d : Nat) :
+    exportModel o (d + 1) m = .ok (renderProg (exportStraight o m)) := by
+  obtain ⟨s1, hg1, hk1⟩ := graphProg_tbl o m h d 1
+  obtain ⟨s2, hg2, hk2⟩ := graphProg_tbl o m h d 2
+  have h' := h
+  unfold straightModel at h'
+  simp only [Bool.and_eq_true, List.all_eq_true, bne_iff_ne, ne_eq, Bool.not_eq_true', List.isEmpty_iff,
+    beq_iff_eq] at h'
+  obtain ⟨⟨⟨⟨⟨⟨⟨⟨⟨⟨_, _⟩, _⟩, _⟩, _⟩, hname⟩, _⟩, _⟩, _⟩, _⟩, _⟩ := h'
+  unfold exportModel translateGraph
+  simp only [hname, Bool.false_eq_true, if_false]
+  cases hs : o.skipInit
+  · simp only [Bool.false_eq_true, if_false, hg1, hk1, List.isEmpty_nil, if_true, Except.map, renderProg,
+      exportStraight, List.map_map, Function.comp_def]
+  · simp only [if_true, hg2, hk2, hg1, List.isEmpty_nil, Except.map, renderProg, exportStraight, List.map_map,
+      Function.comp_def]
+
+/-! ## reading the exported program back -/
+
+theorem lookup_empty_uniqReq {u : List (String × String)} (h : u.lookup "" = none) (v : String) :
+    (uniqReq u v).lookup "" = none := by
+  unfold uniqReq
+  by_cases hv : v = ""
+  · simp only [hv, if_true]; exact h
+  · simp only [hv, if_false]
+    unfold uniqStep
+    cases hl : u.lookup v with
+    | some r => exact h
+    | none =>
+      simp only [List.lookup_append, h, List.lookup, Option.none_or]
+      have : ("" == v) = false := by simpa using (fun e : "" = v => hv e.symm)
+      simp [this]
+
+theorem lookup_empty_uniqRun : ∀ (vs : List String) {u : List (String × String)}, u.lookup "" = none →
+    (uniqRun u vs).lookup "" = none
+  | [], _, h => h
+  | v :: vs, _, h => lookup_empty_uniqRun vs (lookup_empty_uniqReq h v)
+
+theorem pyT_eq_tblF {T : List (String × String)} {v : String} (hv : v ≠ "") : pyT T v = tblF T v := by
+  unfold pyT tblF; simp only [hv, if_false]
+
+theorem unPy_pyT {T : List (String × String)} (hT : TblInv T) (v : String) (hp : Present T v) :
+    unPy (pyT T v) = renName (tblF T) v := by
+  unfold renName unPy
+  by_cases hv : v = ""
+  · simp [hv, pyT]
+  · have hn := pyT_ne_None hT hv hp
+    rw [pyT_eq_tblF hv] at hn
+    simp only [hv, if_false, pyT_eq_tblF hv, hn]
+
+theorem map_pyT_eq_tblF {T : List (String × String)} : ∀ (l : List String), (∀ x ∈ l, x ≠ "") →
+    l.map (pyT T) = l.map (tblF T)
+  | [], _ => rfl
+  | x :: xs, h => by
+    simp only [List.map_cons, pyT_eq_tblF (h x (by simp)), map_pyT_eq_tblF xs (fun y hy => h y (by simp [hy]))]
+
+/-- **Reading back one printed statement gives the node renamed by the table.** -/
+theorem stmtToNode_tbl (o : Opts) (opsets : List (String × Nat)) (n : Node)
+    (hn : StraightNode o opsets n) (ha : aliasOk opsets = true) {T : List (String × String)} (hT : TblInv T)
+    (hp : ∀ x ∈ n.outs ++ n.ins, Present T x) :
+    stmtToNode (opsets.map importOf) (straightStmtF (pyT T) o opsets n) = renNode (tblF T) n := by
   obtain ⟨v, hv, hal⟩ := aliasOk_spec ha
-  unfold straightStmt
-  cases hs : (if o.useOps then opsTable.lookup n.op else none) with
+  unfold straightStmtF
+  cases hs : sugarOf o n with
   | some sym =>
     have hsym := hn.sugar sym hs
     unfold sugarSymmetric at hsym
@@ -275,9 +639,11 @@ theorem stmtToNode_straight (o : Opts) (opsets : List (String × Nat)) (n : Node
         have hc : c ≠ "" := hn.outs c (by simp [Node.outs])
         have hd : dom = "" := hn.dom
         subst hd
+        have hpa := hp a (by simp)
+        have hpb := hp b (by simp)
         simp only [stmtToNode, renNode, h1, Option.getD_some, List.getD_cons_zero, List.getD_cons_succ,
-          unPy_pyName, pyName_of_ne hc, List.map_cons, List.map_nil, Node.ins, Node.outs, Node.attrs, Node.op,
-          Node.domain, h4, hn.dom]
+          unPy_pyT hT a hpa, unPy_pyT hT b hpb, pyT_eq_tblF hc, List.map_cons, List.map_nil, Node.ins, Node.outs,
+          Node.attrs, Node.op, Node.domain, h4]
   | none =>
     cases n with
     | mk op dom name ins outs attrs =>
@@ -285,210 +651,74 @@ theorem stmtToNode_straight (o : Opts) (opsets : List (String × Nat)) (n : Node
       have hd : dom = "" := hn.dom
       subst hd
       simp only [stmtToNode, renNode, hv, Option.getD_some, hal, Node.ins, Node.outs, Node.attrs, Node.op,
-        Node.domain, cleanup_fix_string op hn.opId hn.opKw, List.map_map, map_pyName_of_ne outs hn.outs]
+        Node.domain, cleanup_fix_string op hn.opId hn.opKw, List.map_map, map_pyT_eq_tblF outs hn.outs]
       congr 1
       apply List.map_congr_left
-      intro x _
-      exact unPy_pyName x
+      intro x hx
+      exact unPy_pyT hT x (hp x (List.mem_append_right _ hx))
 
-theorem straightModel_nodes {o : Opts} {m : ModelP} (h : straightModel o m = true) :
-    ∀ n ∈ m.graph.nodes, StraightNode o m.opsets n := by
-  unfold straightModel at h
-  simp only [Bool.and_eq_true, List.all_eq_true] at h
-  intro n hn
-  exact straightNode_spec o m.opsets n (h.1.1.2 n hn)
-
-/-- **The converter's reading of the exported program is the graph renamed by the clean-up.** -/
-theorem progToGraph_exportStraight (o : Opts) (m : ModelP) (h : straightModel o m = true) :
-    progToGraph (exportStraight o m) = renGraph cleanup m.graph := by
+/-- every name of the graph has been requested by the end of the export -/
+theorem names_present (o : Opts) (m : ModelP) (h : straightModel o m = true) :
+    ∀ x ∈ namesOfGraph 0 m.graph, Present (finalTable o m) x := by
   have hnodes := straightModel_nodes h
-  unfold straightModel at h
-  simp only [Bool.and_eq_true, List.all_eq_true, bne_iff_ne, ne_eq] at h
-  obtain ⟨⟨⟨⟨⟨⟨⟨⟨⟨⟨_, _⟩, _⟩, _⟩, hal⟩, _⟩, _⟩, hout⟩, _⟩, _⟩, _⟩ := h
+  have hinits : m.graph.inits = [] := by
+    unfold straightModel at h
+    simp only [Bool.and_eq_true, List.isEmpty_iff] at h
+    exact h.1.1.1.1.1.1.1.1.2
+  intro x hx
+  unfold finalTable reqOrder
+  unfold namesOfGraph at hx
+  simp only [hinits, List.map_nil, List.append_nil, List.mem_append, List.mem_flatMap] at hx
+  apply present_uniqRun
+  simp only [List.mem_append, List.mem_flatMap]
+  rcases hx with (hx | hx) | ⟨n, hn, hx⟩
+  · left; right; exact hx
+  · right; exact hx
+  · left; left
+    refine ⟨n, hn, names_in_req o m.opsets n (hnodes n hn) x ?_⟩
+    simp only [namesOfNode, List.mem_append] at hx
+    exact List.mem_append.mpr hx.symm
+
+/-- **The converter's reading of the exported program is the graph renamed by the final table.** -/
+theorem progToGraph_exportStraight (o : Opts) (m : ModelP) (h : straightModel o m = true) :
+    progToGraph (exportStraight o m) = renGraph (tblF (finalTable o m)) m.graph := by
+  have hnodes := straightModel_nodes h
+  have hpres := names_present o m h
+  have hT : TblInv (finalTable o m) := tblInv_uniqRun _ tblInv_nil
+  have h' := h
+  unfold straightModel at h'
+  simp only [Bool.and_eq_true, List.all_eq_true, bne_iff_ne, ne_eq] at h'
+  obtain ⟨⟨⟨⟨⟨⟨⟨⟨⟨⟨_, _⟩, _⟩, _⟩, hal⟩, _⟩, hin⟩, hout⟩, _⟩, _⟩, _⟩ := h'
   unfold progToGraph exportStraight renGraph
-  simp only [List.map_map, map_pyName_of_ne m.graph.outputs hout]
+  simp only [List.map_map, map_pyT_eq_tblF m.graph.outputs hout, map_pyT_eq_tblF m.graph.inputs hin]
   congr 1
   apply List.map_congr_left
   intro n hn
-  exact stmtToNode_straight o m.opsets n (hnodes n hn) hal
+  exact stmtToNode_tbl o m.opsets n (hnodes n hn) hal hT
+    (fun x hx => hpres x (by
+      rcases List.mem_append.mp hx with hx | hx
+      · exact mem_names_of_node_out hn hx
+      · exact mem_names_of_node_in hn hx))
 
-
-/-! ## the string-level model prints `exportStraight` -/
-
-
-/-- nothing is remapped, in conflict or inlined -/
-structure Quiet (st : St) : Prop where
-  attr : st.attrRen = []
-  remap : st.remaps = [[]]
-  consts : st.constants = []
-
-theorem translateVar_quiet (o : Opts) (hr : o.rename = false) (st : St) (hq : Quiet st) (v : String) :
-    translateVar o st v = (pyName v, st) := by
-  unfold translateVar pyName
-  by_cases hv : v = ""
-  · simp [hv]
-  · have : (v == "") = false := by simpa using hv
-    simp only [this, hv, Bool.false_eq_true, if_false, hq.remap, lookupRemap, List.lookup, newRenamer, hr, hq.attr]
-
-theorem translateVarRef_quiet (o : Opts) (hr : o.rename = false) (st : St) (hq : Quiet st) (v : String) :
-    translateVarRef o st v = (pyName v, st) := by
-  unfold translateVarRef
-  simp only [hq.consts, List.lookup, translateVar_quiet o hr st hq v]
-
-theorem translateVars_quiet (o : Opts) (hr : o.rename = false) (st : St) (hq : Quiet st) :
-    ∀ vs : List String, translateVars o st vs = (vs.map pyName, st)
-  | [] => rfl
-  | v :: vs => by
-    simp only [translateVars, translateVar_quiet o hr st hq v, translateVars_quiet o hr st hq vs, List.map_cons]
-
-theorem translateVarRefs_quiet (o : Opts) (hr : o.rename = false) (st : St) (hq : Quiet st) :
-    ∀ vs : List String, translateVarRefs o st vs = (vs.map pyName, st)
-  | [] => rfl
-  | v :: vs => by
-    simp only [translateVarRefs, translateVarRef_quiet o hr st hq v, translateVarRefs_quiet o hr st hq vs,
-      List.map_cons]
-
-theorem outNames_quiet (o : Opts) (hr : o.rename = false) (st : St) (hq : Quiet st) :
-    ∀ (outs : List String) (i : Nat), (∀ x ∈ outs, x ≠ "") → outNames o st i outs = (outs.map pyName, st)
-  | [], _, _ => rfl
-  | x :: xs, i, h => by
-    have hx : (x == "") = false := by simpa using h x (by simp)
-    simp only [outNames, hx, Bool.false_eq_true, if_false, translateVar_quiet o hr st hq x,
-      outNames_quiet o hr st hq xs (i + 1) (fun y hy => h y (by simp [hy])), List.map_cons]
-
-theorem translateAttrs_printable : ∀ (attrs : List (String × Attr)),
-    attrs.all (fun ka => attrPrintable ka.2) = true → translateAttrs attrs = .ok (attrs.map attrTok)
-  | [], _ => rfl
-  | (k, a) :: rest, h => by
-    simp only [List.all_cons, Bool.and_eq_true] at h
-    have ih := translateAttrs_printable rest h.2
-    have h1 := h.1
-    cases a with
-    | plain => simp only [translateAttrs, ih, Except.map, List.map_cons, attrTok]
-    | tensor _ _ _ => simp only [translateAttrs, ih, Except.map, List.map_cons, attrTok]
-    | ref _ => simp [attrPrintable] at h1
-    | graph _ => simp [attrPrintable] at h1
-    | unsupported => simp [attrPrintable] at h1
-
-theorem no_graph_of_printable : ∀ (attrs : List (String × Attr)),
-    attrs.all (fun ka => attrPrintable ka.2) = true → attrs.any (·.2.isGraph) = false
-  | [], _ => rfl
-  | (k, a) :: rest, h => by
-    simp only [List.all_cons, Bool.and_eq_true] at h
-    have ih := no_graph_of_printable rest h.2
-    have h1 := h.1
-    cases a with
-    | plain => rw [List.any_cons, ih]; rfl
-    | tensor _ _ _ => rw [List.any_cons, ih]; rfl
-    | ref _ => simp [attrPrintable] at h1
-    | graph _ => simp [attrPrintable] at h1
-    | unsupported => simp [attrPrintable] at h1
-
-
-
-
-
-theorem getD_map_pyName (l : List String) (h : l.length = 1) : (l.map pyName).getD 0 "" = pyName (l.getD 0 "") := by
-  match l, h with
-  | [a], _ => rfl
-
-theorem translatePlain_straight (o : Opts) (hr : o.rename = false) (opsets : List (String × Nat)) (n : Node)
-    (hn : StraightNode o opsets n) (indent : Nat) (st : St) (hq : Quiet st) :
-    translatePlain o opsets n indent st = .ok ([renderStmt indent (straightStmt o opsets n)], st) := by
-  unfold translatePlain straightStmt
-  simp only [no_graph_of_printable n.attrs hn.attrs, Bool.false_eq_true, if_false]
-  cases hs : (if o.useOps then opsTable.lookup n.op else none) with
-  | some sym =>
-    have hsym := hn.sugar sym hs
-    unfold sugarSymmetric at hsym
-    simp only [Bool.and_eq_true, beq_iff_eq, List.isEmpty_iff] at hsym
-    obtain ⟨⟨⟨_, h2⟩, _⟩, _⟩ := hsym
-    simp only [translateVar_quiet o hr st hq, translateVarRefs_quiet o hr st hq, renderStmt]
-    match hi : n.ins, h2 with
-    | [a, b], _ => simp only [List.map_cons, List.map_nil, List.getD_cons_zero, List.getD_cons_succ]
-  | none =>
-    simp only [hn.dom]
-    obtain ⟨v, hv⟩ := Option.isSome_iff_exists.mp hn.ops
-    simp only [hv, Option.getD_some, translateAttrs_printable n.attrs hn.attrs,
-      outNames_quiet o hr st hq n.outs 0 hn.outs, translateVarRefs_quiet o hr st hq, renderStmt]
-    have hid : (n.op == "Identity" && n.ins.length == 1 && n.outs.length == 1 &&
-        (n.outs.map pyName).getD 0 "" == (n.ins.map pyName).getD 0 "") = false := by
-      by_cases hc : n.op = "Identity" ∧ n.ins.length = 1 ∧ n.outs.length = 1
-      · obtain ⟨a, b, c⟩ := hc
-        have hne : ¬ pyName (n.outs.getD 0 "") = pyName (n.ins.getD 0 "") := fun e => hn.ident ⟨a, b, c, e⟩
-        simp only [a, b, c, beq_self_eq_true, Bool.true_and, getD_map_pyName _ b, getD_map_pyName _ c]
-        simpa using hne
-      · have : (n.op == "Identity" && n.ins.length == 1 && n.outs.length == 1) = false := by
-          simp only [Bool.and_eq_false_iff, beq_eq_false_iff_ne, ne_eq]
-          by_cases a : n.op = "Identity"
-          · by_cases b : n.ins.length = 1
-            · right; intro c; exact hc ⟨a, b, c⟩
-            · left; right; exact b
-          · left; left; exact a
-        simp only [this, Bool.false_and]
-    simp only [hid, Bool.false_eq_true, if_false]
-
-
-theorem translateNode_straight (o : Opts) (hr : o.rename = false) (hi : o.inlineConst = false)
-    (opsets : List (String × Nat)) (d indent : Nat) (n : Node) (hn : StraightNode o opsets n)
-    (st : St) (hq : Quiet st) :
-    translateNode o opsets (d + 1) indent n st = .ok ([renderStmt indent (straightStmt o opsets n)], st) := by
-  have e2 : (n.op == "If") = false := by simpa using hn.notIf
-  have e3 : (n.op == "Loop") = false := by simpa using hn.notLoop
-  have e4 : (n.op == "Scan") = false := by simpa using hn.notScan
-  simp only [translateNode, hi, Bool.false_and, Bool.false_eq_true, if_false, e2, e3, e4]
-  exact translatePlain_straight o hr opsets n hn indent st hq
-
-theorem nodesLoop_straight (o : Opts) (hr : o.rename = false) (hi : o.inlineConst = false)
-    (opsets : List (String × Nat)) (d indent : Nat) (st : St) (hq : Quiet st) :
-    ∀ (ns : List Node), (∀ n ∈ ns, StraightNode o opsets n) →
-      nodesLoop (translateNode o opsets (d + 1) indent) ns st =
-        .ok (ns.map (fun n => renderStmt indent (straightStmt o opsets n)), st)
-  | [], _ => rfl
-  | n :: ns, h => by
-    simp only [nodesLoop, translateNode_straight o hr hi opsets d indent n (h n (by simp)) st hq,
-      nodesLoop_straight o hr hi opsets d indent st hq ns (fun m hm => h m (by simp [hm])),
-      List.map_cons, List.singleton_append]
-
-
-theorem graphProg_straight (o : Opts) (m : ModelP) (h : straightModel o m = true) (d indent : Nat) :
-    graphProg o (d + 1) m m.funName indent {} =
-      .ok (["sig " ++ m.funName ++ "(" ++ comma (m.graph.inputs.map cleanup) ++ "|)"]
-            ++ m.graph.nodes.map (fun n => renderStmt indent (straightStmt o m.opsets n))
-            ++ [line indent ("return " ++ comma (m.graph.outputs.map pyName))],
-           ({ remaps := [] } : St)) := by
-  have hnodes := straightModel_nodes h
-  unfold straightModel at h
-  simp only [Bool.and_eq_true, List.all_eq_true, bne_iff_ne, ne_eq, Bool.not_eq_true', List.isEmpty_iff,
-    beq_iff_eq] at h
-  obtain ⟨⟨⟨⟨⟨⟨⟨⟨⟨⟨hr, hi⟩, hinits⟩, hsp⟩, _⟩, _⟩, _⟩, _⟩, _⟩, _⟩, _⟩ := h
-  have hq : Quiet ({ remaps := [[]] } : St) := ⟨rfl, rfl, rfl⟩
-  unfold graphProg graphBody
-  simp only [hinits, initsLoop, hsp, Nat.lt_irrefl, gt_iff_lt, if_false, List.nil_append,
-    nodesLoop_straight o hr hi m.opsets d indent _ hq m.graph.nodes hnodes,
-    translateVars_quiet o hr _ hq, List.drop]
-
-/-- **The string-level model of the exporter prints exactly `exportStraight` on the fragment** (every option
-    tuple of the fragment, every nesting fuel ≥ 1). -/
-theorem exportModel_straight (o : Opts) (m : ModelP) (h : straightModel o m = true) (d : Nat) :
-    exportModel o (d + 1) m = .ok (renderProg (exportStraight o m)) := by
-  have hg1 := graphProg_straight o m h d 1
-  have hg2 := graphProg_straight o m h d 2
-  have h' := h
-  unfold straightModel at h'
-  simp only [Bool.and_eq_true, List.all_eq_true, bne_iff_ne, ne_eq, Bool.not_eq_true', List.isEmpty_iff,
-    beq_iff_eq] at h'
-  obtain ⟨⟨⟨⟨⟨⟨⟨⟨⟨⟨_, _⟩, _⟩, _⟩, _⟩, hname⟩, hin⟩, _⟩, _⟩, _⟩, _⟩ := h'
-  have hany : (m.graph.inputs.any (· == "")) = false := by
-    simp only [List.any_eq_false, beq_iff_eq]
-    intro x hx; exact hin x hx
-  unfold exportModel translateGraph
-  simp only [hname, hany, Bool.false_eq_true, if_false]
-  cases hs : o.skipInit
-  · simp only [Bool.false_eq_true, if_false, hg1, List.isEmpty_nil, if_true, Except.map, renderProg, exportStraight,
-      List.map_map, Function.comp_def]
-  · simp only [if_true, hg2, hg1, List.isEmpty_nil, Except.map, renderProg, exportStraight, List.map_map,
-      Function.comp_def]
+/-- the final table is a usable renaming on the names of the graph — **no hypothesis on the names** -/
+theorem goodRen_finalTable (o : Opts) (m : ModelP) (h : straightModel o m = true) :
+    GoodRen (tblF (finalTable o m)) (namesOfGraph 0 m.graph) := by
+  have hpres := names_present o m h
+  have hT : TblInv (finalTable o m) := tblInv_uniqRun _ tblInv_nil
+  have hemp : (finalTable o m).lookup "" = none := lookup_empty_uniqRun _ rfl
+  have hfe : tblF (finalTable o m) "" = "" := by unfold tblF; rw [hemp]; rfl
+  have hne : ∀ a ∈ namesOfGraph 0 m.graph, a ≠ "" → tblF (finalTable o m) a ≠ "" := by
+    intro a ha hane
+    rw [← pyT_eq_tblF hane]
+    exact pyT_ne_empty hT hane (hpres a ha)
+  refine ⟨?_, hne⟩
+  intro a ha b hb hab
+  by_cases hae : a = "" <;> by_cases hbe : b = ""
+  · rw [hae, hbe]
+  · rw [hae, hfe] at hab; exact absurd hab.symm (hne b hb hbe)
+  · rw [hbe, hfe] at hab; exact absurd hab (hne a ha hae)
+  · rw [← pyT_eq_tblF hae, ← pyT_eq_tblF hbe] at hab
+    exact pyT_inj hT hae hbe (hpres a ha) (hpres b hb) hab
 
 
 end OV.C13
